@@ -57,7 +57,7 @@ def main():
             res['demo_mutated_tail'] = o2.strip()[-400:]
         for c in checks:
             t0 = time.time()
-            rc, out = sh([os.path.join(VERIF, 'bin', 'check'), c, '--tier', a.tier], cwd=VERIF, env=dict(os.environ, VERIF_SEED=os.environ.get('VERIF_SEED', '0'), XFAB_REPO=REPO))
+            rc, out = sh([os.path.join(VERIF, 'bin', 'check'), c, '--tier', a.tier], cwd=VERIF, env=dict(os.environ, VERIF_SEED=os.environ.get('VERIF_SEED', '0'), XFAB_REPO=REPO, VERIF_EVIDENCE_DIR='/tmp/seed_evidence'))
             lines = [l for l in out.split('\n') if l.startswith('VIOLATION') or l.startswith('INFRA') or l.startswith('  broken') or l.startswith('  {')]
             res['checks'][c] = {'rc': rc, 'wall_s': round(time.time() - t0, 1), 'lines': lines[:8],
                                 'no_failing_input': any('no-failing-input-found' in l for l in lines)}
